@@ -81,6 +81,14 @@ def reused_object_world(ctx, name, depth, nodedup_depth=2, nmax=4):
             if os.path.exists(fn):
                 os.unlink(fn)
         ms = [dict(exists=False, delim=None, hdr=None, n=0, empty=False) for _ in (0, 1)]
+        # the files are named RELATIVE to the current directory, and the process may change directory while a file is
+        # open on the object (event "chdir"): an open handle must keep working on the file it was opened on
+        os.makedirs(os.path.join(tmp, "elsewhere"), exist_ok=True)
+        os.chdir(tmp)
+        where = [0]
+
+        def rel(f):
+            return ("" if where[0] == 0 else "../") + os.path.basename(fns[f])
         nfd0 = len(os.listdir("/proc/self/fd"))
         sf = sfile.SFile()
         cur = None          # dict(f=, mode=, first=) while a file is open on the object
@@ -91,17 +99,17 @@ def reused_object_world(ctx, name, depth, nodedup_depth=2, nmax=4):
                 if k == "open":
                     _, f, mode, delim = op
                     m = ms[f]
-                    sf.open(fns[f], mode=mode, delim=delim)
+                    sf.open(rel(f), mode=mode, delim=delim)
                     if mode == "w" or (mode == "r+" and not m["exists"]):
-                        cur = dict(f=f, mode="w", first=True)
+                        cur = dict(f=f, mode="w", first=True, at=where[0])
                         m.update(exists=True, delim=delim, hdr=None, n=0, empty=True)
                     else:
-                        cur = dict(f=f, mode=mode, first=False)
+                        cur = dict(f=f, mode=mode, first=False, at=where[0])
                 elif k == "with-open":
                     # the object of a finished with-block: same as open ... close
                     _, f, nk, hk = op
                     m = ms[f]
-                    sf.open(fns[f], mode="w")
+                    sf.open(rel(f), mode="w")
                     with sf:
                         sf.write(chunk(FDK[f], 0, nk), header=HDRS[hk])
                     m.update(exists=True, delim=None, hdr=HDRS[hk], n=nk, empty=False)
@@ -119,6 +127,9 @@ def reused_object_world(ctx, name, depth, nodedup_depth=2, nmax=4):
                 elif k == "close":
                     sf.close()
                     cur = None
+                elif k == "chdir":
+                    where[0] = 1 - where[0]
+                    os.chdir(tmp if where[0] == 0 else os.path.join(tmp, "elsewhere"))
                 elif k == "repr":
                     r = repr(sf), str(sf)
                     if not all(isinstance(x, str) for x in r):
@@ -192,11 +203,15 @@ def reused_object_world(ctx, name, depth, nodedup_depth=2, nmax=4):
                 os.unlink(fn)
         key = (tuple(raws), hstate, module_state(sm, ru),
                tuple((m["exists"], m["delim"], repr(m["hdr"]), m["n"], m["empty"]) for m in ms),
-               None if cur is None else (cur["f"], cur["mode"], cur["first"]))
+               # (the directory the object was opened in is part of the state: the name it stores is relative to it, and
+               # the file-name attribute itself is left out of the fingerprint)
+               None if cur is None else (cur["f"], cur["mode"], cur["first"], cur["at"]), where[0])
         ops = []
         last = hist[-1] if hist else None
         if last != ("repr",):
             ops.append(("repr",))
+        if cur is not None and last != ("chdir",):
+            ops.append(("chdir",))
         if cur is None:
             for f in (0, 1):
                 m = ms[f]
@@ -236,7 +251,7 @@ def reused_object_world(ctx, name, depth, nodedup_depth=2, nmax=4):
 
     return ctx.histories(name, [()], execute, depth=depth, nodedup_depth=nodedup_depth,
                          bounds=dict(files=2, dtypes={k: str(v) for k, v in DTS.items()}, rows_per_file_max=nmax + 2, depth=depth,
-                                     events=["open(f, w|r+|r, delim)", "with-open", "write", "close", "repr", "peek", "edit-header", "read"],
+                                     events=["open(f, w|r+|r, delim) by a relative name", "with-open", "write", "close", "repr", "peek", "edit-header", "read", "chdir while a file is open"],
                                      isolation="every history in a forked child with pristine module state"))
 
 
@@ -258,6 +273,12 @@ def reused_recfile_world(ctx, name, depth, nodedup_depth=2, nmax=4):
             if os.path.exists(fn):
                 os.unlink(fn)
         ms = [dict(exists=False, delim=None, n=0) for _ in (0, 1)]
+        os.makedirs(os.path.join(tmp, "elsewhere"), exist_ok=True)
+        os.chdir(tmp)
+        where = [0]
+
+        def rel(f):
+            return ("" if where[0] == 0 else "../") + os.path.basename(fns[f])
         # the constructor needs a file: the object starts its life on a scratch file of a THIRD dtype
         f0 = os.path.join(tmp, "rfreuse_first.rec")
         first = np.zeros(5, dtype=[("zz", "<u2"), ("s", "S7")])
@@ -275,12 +296,12 @@ def reused_recfile_world(ctx, name, depth, nodedup_depth=2, nmax=4):
                     _, f, mode, delim = op
                     m = ms[f]
                     if mode == "w":
-                        R.open(fns[f], mode="w", delim=delim)
+                        R.open(rel(f), mode="w", delim=delim)
                         m.update(exists=True, delim=delim, n=0)
                     else:
-                        R.open(fns[f], mode=mode, delim=m["delim"], dtype=np.dtype(DTS[FDK[f]]),
+                        R.open(rel(f), mode=mode, delim=m["delim"], dtype=np.dtype(DTS[FDK[f]]),
                                **({} if op[3] == "count" else {"nrows": m["n"]}))
-                    cur = dict(f=f, mode=mode)
+                    cur = dict(f=f, mode=mode, at=where[0])
                 elif k == "write":
                     f = cur["f"]
                     m = ms[f]
@@ -289,6 +310,9 @@ def reused_recfile_world(ctx, name, depth, nodedup_depth=2, nmax=4):
                 elif k == "close":
                     R.close()
                     cur = None
+                elif k == "chdir":
+                    where[0] = 1 - where[0]
+                    os.chdir(tmp if where[0] == 0 else os.path.join(tmp, "elsewhere"))
                 elif k == "repr":
                     if not isinstance(repr(R), str):
                         msg = "repr returned %r" % (repr(R),)
@@ -351,11 +375,13 @@ def reused_recfile_world(ctx, name, depth, nodedup_depth=2, nmax=4):
             if os.path.exists(fn):
                 os.unlink(fn)
         key = (tuple(raws), hstate, module_state(ru), tuple((m["exists"], m["delim"], m["n"]) for m in ms),
-               None if cur is None else (cur["f"], cur["mode"]))
+               None if cur is None else (cur["f"], cur["mode"], cur["at"]), where[0])
         ops = []
         last = hist[-1] if hist else None
         if last != ("repr",):
             ops.append(("repr",))
+        if cur is not None and last != ("chdir",):
+            ops.append(("chdir",))
         if cur is None:
             for f in (0, 1):
                 m = ms[f]
@@ -393,5 +419,5 @@ def reused_recfile_world(ctx, name, depth, nodedup_depth=2, nmax=4):
 
     return ctx.histories(name, [()], execute, depth=depth, nodedup_depth=nodedup_depth,
                          bounds=dict(files=2, dtypes={k: str(v) for k, v in DTS.items()}, rows_per_file_max=nmax + 2, depth=depth,
-                                     events=["open(f, w|r+|r, delim / nrows given or counted)", "write", "close", "repr", "read(all|rows|col|slice|last)"],
+                                     events=["open(f, w|r+|r, delim / nrows given or counted) by a relative name", "write", "close", "repr", "read(all|rows|col|slice|last)", "chdir while a file is open"],
                                      isolation="every history in a forked child with pristine module state"))
